@@ -389,7 +389,8 @@ def table_diagnosis(sites, rows):
         by_id.setdefault(r["id"], []).append(r)
     unclassified, changed = [], []
     for s in sites:
-        if s["key"] in by_key:
+        if s["key"] in by_key or s["class"] == "sortedkeys":
+            # class sortedkeys: collect-then-library-sort, accepted by the generic rule (Sched.sortedKeysKey)
             continue
         if s["id"] in by_id:
             changed.append({"site": s["id"], "line": s["line"], "class_now": s["class"],
@@ -398,7 +399,7 @@ def table_diagnosis(sites, rows):
             unclassified.append({"site": s["id"], "line": s["line"], "class": s["class"]})
     ids = [r["id"].encode() for r in rows]
     unsorted = [rows[i]["id"] for i in range(1, len(rows)) if ids[i] < ids[i - 1]]
-    live = {s["key"] for s in sites}
+    live = {s["key"] for s in sites if s["class"] != "sortedkeys"}
     stale = [r["id"] for r in rows if r["key"] not in live]
     return unclassified, changed, unsorted, stale
 
@@ -584,7 +585,7 @@ def _oracle():
     return os.path.join(vlib.LEAN, ".lake", "build", "bin", EXE)
 
 
-def oracle_crosscheck(rep, diag, jobs, results):
+def oracle_crosscheck(rep, diag, jobs, results, sites=None):
     """the compiled Lean model (a) repeats the table comparison, (b) replays neuralbond's cpdef loop:
     for every completed neuralbond run the node order is read off the emitted file, the model's
     `cpdefLines` of that order must be exactly the emitted lines, and `isort` of every run's order must
@@ -623,7 +624,14 @@ def oracle_crosscheck(rep, diag, jobs, results):
     cov = next((l.split()[1] for l in out if l.startswith("COVERED ")), "?")
     bad = next((l.split()[1] for l in out if l.startswith("BADKEYS ")), "?")
     py_cov = "true" if not diag[0] and not diag[1] and not diag[2] else "false"
-    if cov != py_cov:
+    okeys = sorted(l.split()[1] for l in out if l.startswith("SITE "))
+    same_table = sites is None or okeys == sorted(str(int(x["key"], 16)) for x in sites)
+    if not same_table:
+        # lean/BMV/Gen/MapRanges.lean and the oracle binary are shared between concurrently running C07 checks
+        # (e.g. one against /repo and one against a scratch worktree): the oracle was linked from the other
+        # run's table, its verdict says nothing about this one
+        rep.notes.append("oracle-c07 was built from another concurrently running C07 check's site table; table cross-check skipped")
+    elif cov != py_cov:
         problems.append("oracle says COVERED %s, driver's reading of the table says %s" % (cov, py_cov))
     if bad != "0":
         problems.append("oracle: %s table rows carry a wrong key" % bad)
@@ -658,7 +666,8 @@ def static_summary(sites, rows, diag):
     kinds = {}
     for s in sites:
         kinds[s["kind"]] = kinds.get(s["kind"], 0) + 1
-    return {"sites_in_current_source": len(sites), "by_kind": kinds, "verdicts_of_live_rows": verdicts,
+    return {"sites_in_current_source": len(sites), "by_kind": kinds,
+            "accepted_by_generic_sorted_keys_rule": [s["id"] for s in sites if s["class"] == "sortedkeys"], "verdicts_of_live_rows": verdicts,
             "rows_without_live_site": stale, "unclassified": unclassified, "class_changed": changed,
             "open_sites_(no_theorem;_unproved_or_finding)": open_rows}
 
@@ -711,7 +720,7 @@ def run(rep):
     jobs, results, r = correspondence(rep, thorough)
     phase["tool_runs"] = round(time.monotonic() - t1, 1)
     violations, known_hits, listed = judge(rep, jobs, results, r)
-    oprob, nmodel = oracle_crosscheck(rep, diag, jobs, results)
+    oprob, nmodel = oracle_crosscheck(rep, diag, jobs, results, sites)
     rep.coverage["model_walks_replayed_against_neuralbond_output"] = nmodel
     if oprob:
         pr["ok"] = False
